@@ -22,7 +22,7 @@ from ..dataflow import flow_of
 from ..engine import Context, Reporter
 from ..model import AnalysisError, ClassInfo, FuncInfo, dotted, norm_text, walk_no_nested
 from ..records import discover_sites
-from ..util import _inline_bool_names, call_arg, calls_in, calls_in_node, const_value, forced_atoms, path_facts, unparse
+from ..util import _inline_bool_names, bound_arguments, call_arg, calls_in, calls_in_node, const_value, forced_atoms, path_facts, unparse
 
 PROP = "C14"
 EXPLANATION = (
@@ -45,9 +45,9 @@ def shared_clusterer(ctx: Context) -> Tuple[ClassInfo, FuncInfo, List[Tuple[Clas
         for (call, tg) in ctx.cg.sites.get(fi.qualname, []):
             for t in tg:
                 if isinstance(t, ClassInfo):
-                    for kw in call.keywords:
-                        if isinstance(kw.value, ast.Name) and kw.arg:
-                            uses.setdefault(kw.value.id, []).append((t, kw.arg))
+                    for (pname, val) in bound_arguments(call):
+                        if isinstance(val, ast.Name) and pname:
+                            uses.setdefault(val.id, []).append((t, pname))
         for name, lst in uses.items():
             if len({c.qualname for (c, _) in lst}) >= 2:
                 types = [t for t in ctx.res.expr_types(fi, ast.Name(id=name, ctx=ast.Load())) if isinstance(t, ClassInfo)]
@@ -1017,7 +1017,7 @@ def rule_l(ctx: Context, R: Reporter):
         ucls = [t for t in tg if isinstance(t, ClassInfo) and any(t is u for (u, _) in users)]
         if not ucls:
             continue
-        kw = next((k.value for k in call.keywords if k.arg == "clustering"), None)
+        kw = call_arg(call, None, "clustering")
         if kw is None:
             continue
         at = flow.node_containing(call)
